@@ -40,7 +40,8 @@ def one(sid, props):
             r = sh([os.path.join(VERIF, "check"), p, "--tier", "quick"], cwd=VERIF, env=env)
             vio = [l for l in r.stdout.splitlines() if l.startswith("VIOLATION")]
             res[p] = {"detected": r.returncode == 1 and len(vio) > 0, "exit": r.returncode, "n_violation_lines": len(vio),
-                      "with_failing_input": any("no-failing-input-found" not in l for l in vio), "first": (vio or [None])[0]}
+                      "with_failing_input": any("no-failing-input-found" not in l for l in vio), "first": (vio or [None])[0],
+                      "seed": os.environ.get("VERIF_SEED", "default")}
     finally:
         sh(["git", "-C", REPO, "worktree", "remove", "--force", wt])
         shutil.rmtree(wt, ignore_errors=True)
